@@ -539,6 +539,11 @@ func TestC15DeployOrder(t *testing.T) {
 
 // newMainWorldOn deploys NeoFS+Processing (embedded or fresh) on an existing chain.
 func newMainWorldOn(c *chainkit.Chain, embedded bool) *mainWorld {
+	return newMainWorldStored(c, embedded, false, [][]byte{c.Pubs[0].Bytes()})
+}
+
+// newMainWorldStored: the main-chain contracts with a chosen Notary mode and list of stored Alphabet keys.
+func newMainWorldStored(c *chainkit.Chain, embedded, notaryDisabled bool, stored [][]byte) *mainWorld {
 	get := func(name string) *chainkit.Compiled {
 		if embedded {
 			return chainkit.Embedded(name, "")
@@ -548,7 +553,7 @@ func newMainWorldOn(c *chainkit.Chain, embedded bool) *mainWorld {
 	w := &mainWorld{c: c}
 	procC := get("processing")
 	w.proc = procC.HashFor(c.Committee.ScriptHash())
-	o, hN := c.DeployWith(c.Both(), get("neofs"), []any{false, w.proc, []any{c.Pubs[0].Bytes()}, []any{}})
+	o, hN := c.DeployWith(c.Both(), get("neofs"), []any{notaryDisabled, w.proc, storedArg(stored), []any{}})
 	if !o.Halt {
 		fail("C15: deploying the NeoFS contract fails: %s", o.Fault)
 	}
@@ -560,3 +565,11 @@ func newMainWorldOn(c *chainkit.Chain, embedded bool) *mainWorld {
 }
 
 var _ = neotest.NewSingleSigner
+
+func storedArg(stored [][]byte) []any {
+	a := make([]any, len(stored))
+	for i := range stored {
+		a[i] = stored[i]
+	}
+	return a
+}
